@@ -315,11 +315,18 @@ func execC19(x *Ctx, sc *wire.Scenario) *wire.Result {
 			}
 			same := ok && gb.Macro == b.Macro && (gb.Action == b.Action || (b.Macro && inputrc.Unescape(gb.Action) == inputrc.Unescape(b.Action)))
 			if !same {
-				cls := "ascii"
+				// Which runes of this bind do not survive Escape/Unescape on their own? If all of
+				// them do, the dump's formatting is at fault, not the notation (a different finding).
+				cls := "all-runes-round-trip-individually"
 				for _, r := range seq + map[bool]string{true: inputrc.Unescape(b.Action), false: ""}[b.Macro] {
-					if c := runeClass(int(r)); c != "ascii" {
-						cls = c
+					if inputrc.Unescape(inputrc.Escape(string(r))) != string(r) || inputrc.Unescape(inputrc.EscapeMacro(string(r))) != string(r) {
+						cls = runeClass(int(r))
 					}
+				}
+				if ok {
+					cls += ":parsed-back-differently"
+				} else {
+					cls += ":missing-after-parsing-back"
 				}
 				return violation(res, "MISMATCH", "C19.dumped-binds-round-trip", xx.Kind+":"+cls,
 					fmt.Sprintf("live bind %q -> %q (macro=%v) is not reproduced by parsing the %s output back: got %+v (present=%v)", seq, b.Action, b.Macro, xx.Kind, gb, ok))
